@@ -131,7 +131,8 @@ def pyInt : Cls → Res Cls
 
 /-- `float(s)` for a string -/
 def pyFloat : Cls → Res Cls
-  | str_int => pure float_pos | str_negint => pure float_neg | str_ts | str_bigdigits | str_hugeint => pure float_pos
+  | str_int => pure float_pos | str_negint => pure float_neg | str_ts | str_bigdigits => pure float_pos
+  | str_hugeint => pure float_inf     -- more than 308 digits
   | str_float => pure float_pos | str_exp | str_inf => pure float_inf | str_nan => pure float_nan
   | _ => raise .ValueError
 
@@ -175,6 +176,10 @@ def pyDecArith (op : ArithOp) (a b : Cls) : Res Unit :=
   | .modulo =>
     if nan then pure ()
     else if a.isInfinite || b.isZero then raise .decimal_InvalidOperation
+    else if b.isInfinite then pure ()
+    -- the integer quotient must fit the context precision (28 digits)
+    else if a.isHugeInt then (if b.isHugeInt then [.ok (), .error .decimal_InvalidOperation] else raise .decimal_InvalidOperation)
+    else if a == int_big then (if b.isHugeInt || b == int_big then pure () else [.ok (), .error .decimal_InvalidOperation])
     else pure ()
 
 /-- `a // b` for two ints / `a % b` for two ints -/
@@ -196,7 +201,7 @@ def pyB64DecodeUtf8 : Cls → Res Unit
   | str_empty | str_b64 => pure ()
   | str_b64_nonutf8 => raise .UnicodeDecodeError
   | str_nonascii | str_surrogate => raise .ValueError      -- "string argument should contain only ASCII characters"
-  | str_other | str_key | str_nan | str_inf | str_fmt_d => raise .binascii_Error
+  | str_other | str_key => raise .binascii_Error
   -- remaining strings: depends on length mod 4 and on the decoded bytes
   | _ => [.ok (), .error .binascii_Error, .error .UnicodeDecodeError]
 
@@ -270,7 +275,8 @@ def pyGetitemAll (l key : Cls) : Res Unit :=
 
 /-- `sorted(seq)` -/
 def pySorted : Cls → Res Unit
-  | list_mixed | list_dict | list_dict_gap => raise .TypeError
+  | list_mixed | list_dict_gap => raise .TypeError
+  | list_dict => [.ok (), .error .TypeError]      -- a single dict sorts
   | _ => pure ()
 
 /-- `sum(Decimal...)` over already converted items -/
@@ -282,7 +288,6 @@ def pySumDecimals : Cls → Res Unit
 def pyPercentFormat : Cls → Res Unit
   | str_pct => raise .ValueError
   | str_fmt_d => raise .KeyError
-  | str_repr => [.ok (), .error .ValueError, .error .KeyError, .error .TypeError]
   | _ => pure ()
 
 end LiquidVerif.C02
